@@ -76,6 +76,23 @@ M += [
 ]
 
 
+M += [
+    # ---- family K and the rest
+    ("es_second_friday", "contracts.py", "        return dates[\"Friday\"][2]", "        return dates[\"Friday\"][1]", ["C19"]),
+    ("nk_third_friday", "contracts.py", "        return dates[\"Friday\"][1]", "        return dates[\"Friday\"][2]", ["C19"]),
+    ("vx_mod", "contracts.py", "                                     1) + 2) % 7", "                                     1) + 3) % 7", ["C19"]),
+    ("vx_31_days", "contracts.py", "next_month = this_month + timedelta(days=32)", "next_month = this_month + timedelta(days=31)", ["C19"]),
+    ("vx_minus_29", "contracts.py", "expiration = next_month_third_friday - timedelta(days=30)", "expiration = next_month_third_friday - timedelta(days=29)", ["C19"]),
+    ("treasury_cutoff_after", "contracts.py", "return (expiry - timedelta(days=30)).replace(day=24)", "return (expiry - timedelta(days=3)).replace(day=28)", ["C19"]),
+    ("symbol_month_of_ltd", "contracts.py", "month_code=self.month_codes[self.expiry.month],", "month_code=self.month_codes[self.last_trading_date.month],", ["C19"]),
+    ("es_ltd_after", "contracts.py", "        return expiry - timedelta(days=8)", "        return expiry + timedelta(days=0)", ["C19", "C11"]),
+    ("chain_bisect_left", "contracts.py", "idx = bisect_right(self._last_trading_dates, now)", "idx = bisect_left(self._last_trading_dates, now)", ["C11"]),
+    ("chain_alloc_key", "broker/allocation.py", "            contract.static_hashing(): value", "            contract: value", ["C11"]),
+    ("interest_record_double", "broker/broker.py", "rebalancing.profit_on_idle_cash = self.accrued_interest(rebalancing.time, True)", "rebalancing.profit_on_idle_cash = 2 * self.accrued_interest(rebalancing.time, True)", ["C07", "C06"]),
+    ("step_event_stale", "env.py", "        self.notify(EventStep(self.now(), self.broker.track_record, action))", "        self.notify(EventStep(rebalancing.time, self.broker.track_record, action))", ["C04"]),
+]
+
+
 def apply(root, rel, old, new):
     p = os.path.join(root, "tradingenv", rel)
     s = open(p, newline="").read()
